@@ -385,7 +385,7 @@ def run(ck):
             pk = rng.choice([None, "lower", "upper", "both"])
             plo, pup = rng.randint(-50, 0), rng.randint(100, 200)
             # standard bounds compatible with the physical ones (inside them, and bounded wherever they are)
-            choices = [None, "both"] + ([pk] if pk else ["lower", "upper"])
+            choices = [None, pk] if pk else [None, "lower", "upper", "both"]
             sk = rng.choice(choices)
             slo, sup = plo + rng.randint(1, 20), pup - rng.randint(1, 20)
             if gi < 12:
@@ -427,9 +427,8 @@ def run(ck):
         def part(cats_end, ph):
             out = []
             for cat, ce in cats_end:
-                for v in g["vars"]:
-                    if v["cat"] not in cat:
-                        continue
+                # persistent variables: the state variables, then the auxiliary state variables
+                for v in [w for c_ in cat for w in g["vars"] if w["cat"] == c_]:
                     kind = v["pk"] if ph else v["sk"]
                     if kind is None:
                         continue
